@@ -198,8 +198,32 @@ func (r *relayItems) Entomb(id uint32, deleteAfter time.Duration) (relayItem, bo
 
 	// TODO: We should be clearing these out in batches, rather than creating
 	// individual timers for each item.
-	time.AfterFunc(deleteAfter, func() { r.Delete(id) })
+	time.AfterFunc(deleteAfter, func() { r.deleteTomb(id) })
 	return item, true
+}
+
+// deleteTomb garbage collects the tombstone left for id. The collection is
+// scheduled by id: if the tombstone has been deleted in the meantime (a call
+// that is failed while another goroutine finishes it) and the id has been
+// re-used, the item found is a live call whose timer is active and which must
+// be left alone.
+func (r *relayItems) deleteTomb(id uint32) {
+	r.Lock()
+	item, ok := r.items[id]
+	if !ok {
+		r.Unlock()
+		r.logger.WithFields(LogField{"id", id}).Warn("Attempted to delete non-existent relay item.")
+		return
+	}
+	if !item.tomb {
+		r.Unlock()
+		return
+	}
+	delete(r.items, id)
+	r.tombs--
+	r.Unlock()
+
+	item.timeout.Release()
 }
 
 type frameType int
